@@ -22,6 +22,7 @@ EXPLANATION = ('(1) Overflow guards of both varint decoders, evaluated over ever
                'by the writer iff the reader re-creates it. (7) 8-byte reals: bias 64 / 14 hex digits / 56-bit mantissa / sign bit '
                'constants are paired between encoder and decoder and the exponent uses a normalising idiom. Value-level '
                'losslessness (one-ulp claim) is not decided.')
+ADVISORY = [('R-CONST', r'^unsigned_integer/packing$')]
 ASSUMPTIONS = ['the byte stream primitives oasis_read/oasis_write transfer bytes unchanged']
 XREF_FILES = ['src/oasis.cpp', 'src/gdsii.cpp', 'src/utils.cpp']
 
@@ -374,27 +375,43 @@ def check_reals(ctx, db):
     gs = [norm(i.child('cond').text()) for i in w.body.c if i is not None and i.k == 'IfStmt']
     ok = len(gs) == 2 and gs[0].startswith('((trunc(value) == value) && (fabs(value) <') and gs[1].startswith('((trunc(inverse) == inverse) && (fabs(inverse) <')
     ctx.check(ok, 'R-UNIT', 'real/integral-before-cast', w.loc(), 'a double is cast to uint64 only after it was proved integral and below 2^64')
-    # reader arms
-    sw = tables.switches_on(r, 'OasisDataType')[0]
+    # reader: the decoder is evaluated for every integer-based type code on the tokens 7 (first integer read) and 3 (second):
+    # the results must be the inverse maps +u, -u, 1/u, -1/u, n/d, -n/d - whatever the dispatch looks like (switch, merged arms, ifs)
+    from .. import minieval as M
+    from fractions import Fraction
     rt = {}
-    vals = {v: k for k, v in names.items()}
-    for labels, stmts, top in tables.switch_arms(sw):
-        rets = [norm(x.child('value').text()) for s in stmts for x in s.walk() if x.k == 'ReturnStmt' and x.child('value') is not None]
-        body = norm(' ; '.join(s.text() for s in stmts))[:200]
-        for l in labels:
-            if l != 'default':
-                rt[vals.get(l, l)] = (rets, body)
-    U = '(double)oasis_read_unsigned_integer(in)'
-    want_r = {'RealPositiveInteger': [U], 'RealNegativeInteger': ['(-%s)' % U], 'RealPositiveReciprocal': ['(1 / %s)' % U], 'RealNegativeReciprocal': ['((-1) / %s)' % U],
-              'RealPositiveRatio': ['(num / den)'], 'RealNegativeRatio': ['((-num) / den)']}
-    okr = all(k in rt and [x.replace('1.0', '1') for x in rt[k][0][-1:]] == want_r[k] for k in want_r) and 'RealFloat' in rt and 'RealDouble' in rt
-    ctx.check(okr, 'R-TABLE', 'real/reader-forms', r.loc(), 'reader arms 0-5 apply the inverse maps (+u, -u, 1/u, -1/u, n/d, -n/d)', 'reader arms: %s' % {k: v[0] for k, v in rt.items()})
-    for k, wdt, swp in (('RealFloat', 'sizeof(float)', 'little_endian_swap32'), ('RealDouble', 'sizeof(double)', 'little_endian_swap64')):
-        b = rt.get(k, ([], ''))[1]
-        arm = next((stmts for labels, stmts, top in tables.switch_arms(sw) if names[k] in labels), [])
-        txt = norm(' '.join(s.text() for s in arm) + ' '.join(x.text() for s in arm for x in s.walk() if x.k in ('CallExpr',)))
-        ctx.check(wdt in txt and swp in txt, 'R-TABLE', 'real/%s' % k, r.loc(), '%s reads %s bytes and converts from little-endian' % (k, wdt))
-    ctx.check({'RealPositiveInteger', 'RealNegativeInteger', 'RealPositiveReciprocal', 'RealNegativeReciprocal', 'RealDouble'} <= set(rt), 'R-TABLE', 'real/writer-subset-of-reader', r.loc(), 'every form the writer emits has a reader arm')
+    want_r = {'RealPositiveInteger': Fraction(7), 'RealNegativeInteger': Fraction(-7), 'RealPositiveReciprocal': Fraction(1, 7), 'RealNegativeReciprocal': Fraction(-1, 7),
+              'RealPositiveRatio': Fraction(7, 3), 'RealNegativeRatio': Fraction(-7, 3)}
+    tparam = r.params[1]['n']
+    for name in want_r:
+        toks = [7, 3]
+
+        def hook(callee, args, node, toks=toks):
+            if callee == 'gdstk::oasis_read_unsigned_integer':
+                return (toks.pop(0) if toks else 1,)
+            return None
+        mi = M.Mini(db, hook=hook)
+        try:
+            mi.run(r.body, {tparam: names[name], r.params[0]['n']: ('opaque', 'in')})
+            rt[name] = None
+        except M.Return as rr:
+            rt[name] = rr.v
+        except AnalysisBroken as e:
+            rt[name] = 'not evaluable: %s' % e
+    ctx.explored['valuations'] += len(want_r)
+    okr = all(rt.get(k) == v for k, v in want_r.items())
+    has = {x.n for x in r.walk() if x.k == 'DeclRefExpr' and x.dk == 'enum'}
+    okr = okr and 'RealFloat' in has and 'RealDouble' in has
+    ctx.check(okr, 'R-TABLE', 'real/reader-forms', r.loc(), 'reader arms 0-5 apply the inverse maps (+u, -u, 1/u, -1/u, n/d, -n/d)', 'with u = n = 7, d = 3 the reader returns %s' % {k: str(v) for k, v in rt.items()})
+    # float / double: the statements executed for that type code (path atoms on the type parameter) read 4 / 8 bytes and swap them
+    tk = 'v%d:%s' % (r.params[1]['d'], r.params[1]['n'])
+    for k, wdt, swp in (('RealFloat', 'sizeof(float)', 'gdstk::little_endian_swap32'), ('RealDouble', 'sizeof(double)', 'gdstk::little_endian_swap64')):
+        calls = [c for c in r.walk() if c.k == 'CallExpr' and ('eq', tk, names[k], True) in tables.path_atoms(c)]
+        rd = [c for c in calls if c.callee == 'gdstk::oasis_read' and wdt in norm(' '.join(a.text() for a in c.args))]
+        sp = [c for c in calls if c.callee == swp]
+        ctx.check(bool(rd) and bool(sp), 'R-TABLE', 'real/%s' % k, r.loc(), '%s reads %s bytes and converts from little-endian' % (k, wdt))
+    ctx.check(all(rt.get(k_) is not None and not isinstance(rt.get(k_), str) for k_ in ('RealPositiveInteger', 'RealNegativeInteger', 'RealPositiveReciprocal', 'RealNegativeReciprocal')) and 'RealDouble' in has,
+              'R-TABLE', 'real/writer-subset-of-reader', r.loc(), 'every form the writer emits has a reader arm')
 
 
 def check_point_lists(ctx, db):
